@@ -1,7 +1,11 @@
 /* Oracle self-tests (DESIGN.md §8): an oracle that fails here makes every check exit 2. */
 #include "common.h"
+#include "have.h"
 #include "gf.h"
-int selftest_rsref(void); int selftest_gf2(void); int selftest_rfc5170(void); int selftest_models(void);
+#include "rsref.h"
+#include "gf2.h"
+#include "rfc5170.h"
+int selftest_models(void);
 int selftest(void)
 {
 	int rc;
